@@ -434,6 +434,23 @@ func (h *H) hashDec(k key, ct, want []byte, emit bool, class, note string) {
 	}
 }
 
+// aliases of a ciphertext: byte strings different from ct that denote the same residue modulo N
+// (ct + k*N while it fits 256 bytes, and the zero-prefixed form). They are altered ciphertexts: the
+// decoder must reject them.
+func aliases(ct []byte, k key) (out [][]byte, class []string) {
+	c := new(big.Int).SetBytes(ct)
+	lim := new(big.Int).Lsh(big.NewInt(1), 2048)
+	for i := 0; i < 2; i++ {
+		c = new(big.Int).Add(c, k.priv.N)
+		if c.Cmp(lim) >= 0 {
+			break
+		}
+		out, class = append(out, c.FillBytes(make([]byte, 256))), append(class, "plus-modulus")
+	}
+	out, class = append(out, append([]byte{0}, ct...)), append(class, "zero-prefixed")
+	return
+}
+
 // mutants of a ciphertext: the decoder must reject each of them.
 func (h *H) mutants(ct []byte, n int) (out [][]byte, class []string) {
 	r := h.c.Rng
@@ -511,6 +528,24 @@ func main() {
 
 	// ---- corpus: the vector of TestRSAPad (144 x 'a', zero random source) and zero data ----
 	h.padCase(A, bytes.Repeat([]byte{'a'}, 144), make([]byte, 48+32*4), false, false, "corpus")
+	// ---- corpus (regression for "fix: reject non-canonical RSA ciphertexts"): c+N and 0x00||c of an
+	// honest ciphertext were accepted by both decoders ----
+	for i, k := range []key{B, A} {
+		data := []byte("hello")
+		st := bytes.Repeat([]byte{byte(7 + i)}, 192+32*12)
+		if ct := h.padCase(k, data, st, false, false, "corpus"); ct != nil {
+			as, acl := aliases(ct, k)
+			for j := range as {
+				h.padDec(k, as[j], nil, i == 0, acl[j], "corpus")
+			}
+		}
+		if ct := h.hashCase(k, data, st[:255], false, false, "corpus"); ct != nil {
+			as, acl := aliases(ct, k)
+			for j := range as {
+				h.hashDec(k, as[j], nil, i == 0, acl[j], "corpus")
+			}
+		}
+	}
 	// ---- RSA_PAD: every data length 0..144 ----
 	for round := 0; round < rounds; round++ {
 		for l := 0; l <= 144; l++ {
@@ -533,6 +568,10 @@ func main() {
 			}
 			if l%foreignEvery == 0 {
 				h.padDec(other, ct, nil, emit && l%2 == 0, "foreign-key", "")
+			}
+			as, acl := aliases(ct, k)
+			for i := range as {
+				h.padDec(k, as[i], nil, false, acl[i], "")
 			}
 			if l%16 == 0 {
 				h.padDec(k, ct[:255], nil, false, "truncated", "")
@@ -576,6 +615,10 @@ func main() {
 			}
 			if l%foreignEvery == 0 {
 				h.hashDec(other, ct, nil, emit, "foreign-key", "")
+			}
+			as, acl := aliases(ct, k)
+			for i := range as {
+				h.hashDec(k, as[i], nil, false, acl[i], "")
 			}
 		}
 	}
